@@ -321,6 +321,16 @@ static Line& operator<<(Line &l, const BlkMat &A) {
     for (long i = 0; i < A.n; ++i) { l << (long)(A.ptr[i+1] - A.ptr[i]); for (auto j = A.ptr[i]; j < A.ptr[i+1]; ++j) { l << (long)A.col[j]; for (auto &x : A.val[j]) l << x; } }
     return l;
 }
+static bool blk_nodup(const BlkMat &A) {   // square, columns in range, no duplicate column in a row
+    if (A.n != A.m) return false;
+    for (long i = 0; i < A.n; ++i) { std::set<long> seen; for (auto j = A.ptr[i]; j < A.ptr[i+1]; ++j) { if (A.col[j] < 0 || A.col[j] >= A.m) return false; if (!seen.insert(A.col[j]).second) return false; } }
+    return true;
+}
+static BlkMat blk_sorted(const BlkMat &A) {
+    BlkMat R; R.B = A.B; R.n = A.n; R.m = A.m; R.ptr.push_back(0);
+    for (long i = 0; i < A.n; ++i) { std::vector<std::pair<long,long>> o; for (auto j = A.ptr[i]; j < A.ptr[i+1]; ++j) o.push_back({(long)A.col[j], (long)j}); std::sort(o.begin(), o.end()); for (auto &q : o) { R.col.push_back(q.first); R.val.push_back(A.val[q.second]); } R.ptr.push_back((ptrdiff_t)R.col.size()); }
+    return R;
+}
 static bool blk_ok(const BlkMat &A) {   // square, columns in range, strictly increasing columns
     if (A.n != A.m) return false;
     for (long i = 0; i < A.n; ++i) for (auto j = A.ptr[i]; j < A.ptr[i+1]; ++j) { if (A.col[j] < 0 || A.col[j] >= A.m) return false; if (j > A.ptr[i] && !(A.col[j-1] < A.col[j])) return false; }
@@ -457,7 +467,7 @@ static Result exec_cpr(Cur &c, bool with_upd) {
     std::string why; long n = K.n, N = in.act ? in.act : n;
     if (!crs_wf(*K.crs(), why) || K.n != K.m || !crs_sorted_nodup(*K.crs()) || in.B < 1 || in.act < 0 || N > n || N % in.B != 0 || (long)in.f.size() != n ||
         !(in.skind == 1 || (in.Sm.r == n && in.Sm.c == n)) || in.Pm.r != N / in.B || in.Pm.c != N / in.B) throw bad_input("shape");
-    if (with_upd && (!crs_wf(*K2.crs(), why) || K2.n != K2.m || !crs_sorted_nodup(*K2.crs()) || K2.n != n)) throw bad_input("shape2");
+    if (with_upd && (!crs_wf(*K2.crs(), why) || K2.n != K2.m || !crs_nodup(*K2.crs()) || K2.n != n)) throw bad_input("shape2");   // partial_update sorts its copy
     DM Kd = ddense(K);
     std::string oc = scalar_outcome(K, in.B, N);
     if (!oc.empty()) { r.out = oc; r.tag("cpr_" + oc); return r; }
@@ -468,7 +478,9 @@ static Result exec_cpr(Cur &c, bool with_upd) {
     if (!with_upd) { put_state(l, o) << "x" << o.x; }
     else {
         l << "x0" << o.x0 << "Fpp" << *o.Fpp2 << "x" << o.x;
-        bool same = K2.ptr == K.ptr && K2.col == K.col; if (same) for (size_t k = 0; k < K.val.size(); ++k) if (K.val[k].v != K2.val[k].v) same = false;
+        bool same = true; { auto ra = to_rows(K), rb = to_rows(K2); for (auto &q : rb) std::sort(q.begin(), q.end(), [](const std::pair<long,Q> &a, const std::pair<long,Q> &b) { return a.first < b.first; });
+            for (long i = 0; same && i < n; ++i) { if (ra[i].size() != rb[i].size()) same = false; else for (size_t k = 0; k < ra[i].size(); ++k) if (ra[i][k].first != rb[i][k].first || ra[i][k].second.v != rb[i][k].second.v) same = false; } }
+        if (!crs_sorted_nodup(*K2.crs())) r.tag("upd_unsorted_input");
         if (same) { r.tag("upd_same_matrix"); if (!veq(o.x, o.x0)) r.fail("partial_update with an unchanged matrix changed the action"); if ((Line() << *o.Fpp2).get() != (Line() << *o.Fpp).get()) r.fail("partial_update with an unchanged matrix changed Fpp"); }
         else {
             r.tag("upd_new_matrix");
@@ -495,7 +507,7 @@ static Result exec_cprb(Cur &c, bool with_upd) {
     c.expect_end();
     long B = in.B, n = K.n, N = in.act ? in.act : n;
     if (B < 2 || !blk_ok(K) || in.act < 0 || N > n || (long)in.f.size() != n * B || !(in.skind == 1 || (in.Sm.r == n * B && in.Sm.c == n * B)) || in.Pm.r != N || in.Pm.c != N) throw bad_input("shape");
-    if (with_upd && (!blk_ok(K2) || K2.n != n)) throw bad_input("shape2");
+    if (with_upd && (!blk_nodup(K2) || K2.n != n)) throw bad_input("shape2");   // partial_update sorts its copy
     Mat Ks = expand(K); DM Kd = ddense(Ks);
     auto outcome_of = [&](const BlkMat &A) {
         bool zp = false, un = false; DM Ad = ddense(expand(A));
@@ -529,7 +541,8 @@ static Result exec_cprb(Cur &c, bool with_upd) {
         put_state(l, o) << "x" << o.x << "eq" << eq;
     } else {
         l << "x0" << o.x0 << "Fpp" << *o.Fpp2 << "x" << o.x;
-        bool same = K2.ptr == K.ptr && K2.col == K.col; if (same) for (size_t k = 0; k < K.val.size(); ++k) for (size_t q = 0; q < K.val[k].size(); ++q) if (K.val[k][q].v != K2.val[k][q].v) same = false;
+        BlkMat K2s = blk_sorted(K2); if (!blk_ok(K2)) r.tag("upd_unsorted_input");
+        bool same = K2s.ptr == K.ptr && K2s.col == K.col; if (same) for (size_t k = 0; k < K.val.size(); ++k) for (size_t q = 0; q < K.val[k].size(); ++q) if (K.val[k][q].v != K2s.val[k][q].v) same = false;
         if (same) { r.tag("upd_same_matrix"); if (!veq(o.x, o.x0)) r.fail("partial_update with an unchanged matrix changed the action"); if ((Line() << *o.Fpp2).get() != (Line() << *o.Fpp).get()) r.fail("partial_update with an unchanged matrix changed Fpp"); }
         else r.tag("upd_new_matrix");
         r.tag(upd ? "upd_transfer" : "upd_keep_transfer");
@@ -750,14 +763,16 @@ static void gen_cpr(Rng &rng, const Opts &o, std::vector<std::string> &lines) {
             CprOut oo = run_cpr_scalar(K, in); DM Ai; if (dinverse(ddense(*oo.App), Ai)) Pm = Ai;
         }
         l << (upd ? "comp_cpr_upd" : "comp_cpr") << B << act << K << skind << Sm << Pm << gen_vec(rng, n);
-        if (upd) { l << rng.coin(); if (rng.coin()) l << K; else l << perturb(rng, K, B, N); }
+        if (upd) { l << rng.coin(); Mat K2 = rng.coin() ? K : perturb(rng, K, B, N); if (rng.coin(1, 3)) K2 = unsort(rng, K2, false); l << K2; }
     } else {
         bool couple = rng.coin(1, 4);
         BlkMat K = gen_cpr_block(rng, B, nb, extra, couple, defect); long n = K.n;
         long act = extra ? nb : (rng.coin() ? 0 : nb);
         DM Sm = skind ? DM(0, 0) : rand_dense(rng, n * B, n * B), Pm = rand_dense(rng, nb, nb);
         l << (upd ? "comp_cprb_upd" : "comp_cprb") << B << act << K << skind << Sm << Pm << gen_vec(rng, n * B);
-        if (upd) { l << rng.coin(); BlkMat K2 = K; if (rng.coin()) for (size_t k = 0; k < K2.val.size(); ++k) { bool dg = false; for (long i = 0; i < K2.n; ++i) if ((ptrdiff_t)k >= K2.ptr[i] && (ptrdiff_t)k < K2.ptr[i+1] && K2.col[k] == i) dg = true; if (!dg) for (auto &x : K2.val[k]) if (rng.coin()) x = rng.rat(3); } l << K2; }
+        if (upd) { l << rng.coin(); BlkMat K2 = K; if (rng.coin()) for (size_t k = 0; k < K2.val.size(); ++k) { bool dg = false; for (long i = 0; i < K2.n; ++i) if ((ptrdiff_t)k >= K2.ptr[i] && (ptrdiff_t)k < K2.ptr[i+1] && K2.col[k] == i) dg = true; if (!dg) for (auto &x : K2.val[k]) if (rng.coin()) x = rng.rat(3); }
+            if (rng.coin(1, 3)) for (long i = 0; i < K2.n; ++i) for (ptrdiff_t a = K2.ptr[i+1] - 1; a > K2.ptr[i]; --a) { ptrdiff_t b = K2.ptr[i] + (ptrdiff_t)(rng.next() % (uint64_t)(a - K2.ptr[i] + 1)); std::swap(K2.col[a], K2.col[b]); std::swap(K2.val[a], K2.val[b]); }
+            l << K2; }
     }
     lines.push_back(l.get());
 }
@@ -780,7 +795,7 @@ static void gen_defl(Rng &rng, const Opts &o, std::vector<std::string> &lines) {
 }
 
 static void generate(Rng &rng, const Opts &o, std::vector<std::string> &lines) {
-    long N = o.cases > 0 ? o.cases : (o.thorough() ? 3000 : 300);
+    long N = o.cases > 0 ? o.cases : (o.thorough() ? 15000 : 1500);
     for (long k = 0; k < N; ++k) {
         int which = (int)rng.range(0, 9);
         if (which < 5) gen_schur(rng, o, lines); else if (which < 8) gen_cpr(rng, o, lines); else gen_defl(rng, o, lines);
